@@ -116,9 +116,9 @@ def run_e3(chk, d):
         return 0
     out = rr.stdout.decode()
     lines = [l.split() for l in out.splitlines() if l.startswith('E3 ')]
-    if rr.returncode != 0 or len(lines) != 5 * 6 * 11:
+    if rr.returncode != 0 or len(lines) != 5 * 6 * 14:
         chk.violation('deadline|driver-died', {'kind': 'program', 'stdout': out[-600:], 'stderr': rr.stderr.decode()[-600:], 'how_to_replay': 'python3 checks/c17.py quick'},
-                      'E3 driver ended with status %d after %d of 330 cases: %s' % (rr.returncode, len(lines), (out[-200:] + rr.stderr.decode()[-200:])))
+                      'E3 driver ended with status %d after %d of 420 cases: %s' % (rr.returncode, len(lines), (out[-200:] + rr.stderr.decode()[-200:])))
         return len(lines)
     NS = 10 ** 9      # restated, not read from w2c2_base.h
     bad = {}
@@ -149,9 +149,9 @@ def run_e3(chk, d):
             to, 'the wait returned %s without blocking although the cell equals the expected value' % dsec if how == 'returned' else
             'the wait blocks with the absolute deadline %s.%09d while the host clock says 1700000000.000000005' % (dsec, int(dnsec))))
     for key, msgs in sorted(bad.items()):
-        chk.violation(key, {'kind': 'program', 'cases': msgs[:20], 'how_to_replay': 'python3 checks/c17.py quick (E3: mc/h_futex_e3.c)'}, '%s (%d of 330 clock x timeout cases)' % (msgs[0], len(msgs)))
+        chk.violation(key, {'kind': 'program', 'cases': msgs[:20], 'how_to_replay': 'python3 checks/c17.py quick (E3: mc/h_futex_e3.c)'}, '%s (%d of 420 clock x timeout cases)' % (msgs[0], len(msgs)))
     chk.cov['e3_deadline_cases'] = {'cases': len(lines), 'host_clock_answers': '5 seconds values x 6 nanosecond values (0, 1, 499999999, 500000000, 999999998, 999999999)',
-                                    'timeouts_ns': '1, 999, 5e8, 1e9-1, 1e9, 1e9+1, 1.5e9, 2e9-1, 2e9, 3.6e12, 2^53+1', 'negative_timeouts': '-1, -2, -5, -1e9, -2^32, -2^63: must block without (or with a far) deadline', 'wrong': sum(len(v) for v in bad.values()), 'late_by_at_most_1ms_tolerated': late_ok}
+                                    'timeouts_ns': '1, 999, 5e8, 1e9-1, 1e9, 1e9+1, 1.5e9, 2e9-1, 2e9, 3.6e12, 2^53+1, 2^63-1, 2^63-2, 2^63-1e9', 'negative_timeouts': '-1, -2, -5, -1e9, -2^32, -2^63: must block without (or with a far) deadline', 'wrong': sum(len(v) for v in bad.values()), 'late_by_at_most_1ms_tolerated': late_ok}
     return len(lines)
 
 
@@ -401,7 +401,7 @@ def main(tier):
                          'futex.c up to the preemption bound, with up to db environment deviations (a timeout that fires while other threads can still run, a spurious wake-up) and every '
                          'choice of the signalled waiter, is executed on the real code in an ASan build (and again, one preemption level lower and with <= 3 threads, in a TSan build); the log of critical-section entries is replayed on '
                          'a sequential futex model.  distinct_nontrivial = cases whose schedules give more than one distinct (return values, terminal thread states, futex map) combination. '
-                         'E1: 10 single-threaded probes of the translated functions with memarg offset 0/16. E3: 330 (host clock answer, finite timeout) cases: the absolute deadline handed to '
+                         'E1: 10 single-threaded probes of the translated functions with memarg offset 0/16. E3: 420 (host clock answer, finite timeout) cases: the absolute deadline handed to '
                          'pthread_cond_timedwait must be exactly now + timeout, normalised' % (A, A2, B))
         chk.cov['evaluations'] += ne1
         # did the two colliding addresses really meet in one bucket?
